@@ -17,6 +17,7 @@ MCNext ==
   \/ FollowerLoseLog /\ Fault
   \/ LeaderRestart /\ Fault
   \/ (TailLoss /\ \E k \in 1..2 : LeaderLoseTail(k)) /\ Fault
+  \/ (\E k \in 1..2 : LeaderLoseGroup(k)) /\ Fault
   \/ LeaderGC /\ NoF
 Fair == WF_mcvars(HandshakeStep("none") /\ NoF) /\ WF_mcvars(Step("none") /\ NoF)
 MCSpec == MCInit /\ [][MCNext]_mcvars /\ Fair
